@@ -46,7 +46,7 @@ def run(tier):
     c.sample({"behaviour_ops": [s["op"] for s in beh[0]["steps"]], "first_request": beh[0]["steps"][0].get("req")})
 
     # ---- sizes ("any keys/sizes"): behaviours that publish the content named c and compact afterwards, replayed with c as
-    # a text of 2.4 MB - log and snapshot records larger than 2 MiB (more than one read of a file returns)
+    # a text of 3.3 MB - log and snapshot records larger than 2 MiB (more than one read of a file returns)
     def big_ok(b):
         seen = False
         for s_ in b["steps"]:
@@ -60,18 +60,18 @@ def run(tier):
     if len(bigb) < 4:
         raise ToolError("too few behaviours that publish content c before a compaction: %d" % len(bigb))
     bres = vlib.harness(["replay", "sm", vlib.write_ndjson(os.path.join(sc, "beh_big.ndjson"), bigb), "--mode", "c01", "--jobs", 4],
-                        timeout=6000, env={"RNVERIF_BIG": "c=2400000"})
+                        timeout=6000, env={"RNVERIF_BIG": "c=3300000"})
     bsumm = [r for r in bres if r.get("kind") == "summary"][0]
     if bsumm.get("tool_errors", 0) > len(bigb) // 4:
         raise ToolError("big-record leg: too many mini-node tool errors: %s" % bsumm)
     for r in bres:
         if r.get("kind") == "result" and not r["ok"]:
-            c.violation(keyfn(bigb[r["i"]], r) + "+2.4MB_content",
-                        "state machine on mini node, content c = 2.4 MB: %s (expected %s, got %s) at step %s" %
+            c.violation(keyfn(bigb[r["i"]], r) + "+3.3MB_content",
+                        "state machine on mini node, content c = 3.3 MB: %s (expected %s, got %s) at step %s" %
                         (r.get("what"), vlib.json.dumps(r.get("expected"))[:500], vlib.json.dumps(r.get("actual"))[:500], r.get("step")),
-                        {"behaviour": bigb[r["i"]], "env": {"RNVERIF_BIG": "c=2400000"},
+                        {"behaviour": bigb[r["i"]], "env": {"RNVERIF_BIG": "c=3300000"},
                          "mismatch": {k: (v if len(vlib.json.dumps(v)) < 2000 else "(large)") for k, v in r.items()}})
-    c.cov["behaviours_replayed_with_2.4MB_records"] = len(bigb)
+    c.cov["behaviours_replayed_with_3.3MB_records"] = len(bigb)
     c.traces(len(bigb))
 
     sm_common.transfer_leg(c, sc, [b for b in beh if b.get("alphabet") != "mcp_thin"][: (40 if quick else 600)], "transfer_c01",
